@@ -1,13 +1,12 @@
 CONSTANTS
-  TermsOf <- AbsTerms
-  ShortOf <- AbsShort
+  LabelTerms <- AbsTerms
   Variant = "ok"
   Labels <- L3
   MaxNodes = 1
   MaxDepth = 4
   Alphabet <- AlphaFull
   MaxToks = 4
-  Gen <- Atoms
+  Big = FALSE
 SPECIFICATION SpecTexts
 INVARIANT PDAEqualsRD
 INVARIANT UnbalancedRejected
